@@ -281,6 +281,10 @@ def reader_key_list(repo: Repo) -> KeyList:
     if styp is None:
         raise AnchorMissing("ModuleReader.process_STYP")
     fn = inline.flatten(repo, mr, styp)
+    try:
+        fn = inline.propagate_int_constants(inline.split_tuple_assigns(fn))       # first, last = 1, MAX … range(first, last + 1)
+    except Exception:
+        pass
     sf = mr.file
     problems: List[str] = []
     # symbolic value of list-valued names: list of segments
